@@ -7,6 +7,7 @@ import (
 
 	"github.com/mithrandie/csvq/lib/parser"
 	"github.com/mithrandie/csvq/lib/value"
+	"github.com/mithrandie/csvq/lib/verifhook"
 
 	"github.com/mithrandie/ternary"
 )
@@ -156,6 +157,7 @@ func InnerJoin(ctx context.Context, scope *ReferenceScope, view *View, joinView 
 
 		ctx := ctx
 		start, end := gm.RecordRange(thIdx)
+		verifhook.Worker("join", thIdx, gm.Number)
 		records := make(RecordSet, 0, end-start)
 		seqScope := scope.CreateScopeForRecordEvaluation(
 			&View{
@@ -257,6 +259,7 @@ func OuterJoin(ctx context.Context, scope *ReferenceScope, view *View, joinView 
 
 		ctx := ctx
 		start, end := gm.RecordRange(thIdx)
+		verifhook.Worker("join", thIdx, gm.Number)
 		records := make(RecordSet, 0, end-start)
 		seqScope := scope.CreateScopeForRecordEvaluation(
 			&View{
